@@ -107,6 +107,12 @@ def run(ctx):
         conts = [('raw-sample', raw)]
         if raw.shape[0] >= 4 and rng.random() < 0.3:
             conts.append(('derived-sample', zoo.derive(rng, raw, min_events=2)[0]))     # sliced / copied / pickled / rearranged
+        if raw.shape[1] >= 2 and rng.random() < 0.35:
+            # restored from a pickle with its columns in another arrangement than the samples restored before it in this
+            # process (a name must be resolved against THIS sample's columns)
+            import pickle
+            perm_ = [int(x) for x in rng.permutation(raw.shape[1])]
+            conts.append(('unpickled-rearranged', pickle.loads(pickle.dumps(raw[:, perm_], protocol=int(rng.integers(2, 6))))))
         if kind[0] == 'u' and rng.random() < 0.7:
             rfi = F.transform.to_rfi(raw)
             conts.append(('rfi-sample', rfi))
